@@ -6,6 +6,7 @@ import ast
 import os
 
 from vlib.core import VERIF, AnalysisError, Report
+from vlib.flow import enclosing_tries, handler_types, parent_map
 from vlib.srcindex import ModuleInfo, SourceIndex, attr_chain, const_str, mangle, unparse, walk_no_nested
 from vlib.stores import effects_of, stores_of
 
@@ -105,6 +106,30 @@ def rule_a(rep: Report, idx: SourceIndex) -> None:
 			r.check(a in deleted, f'{cls.name}:{a}', un.where, f'{cls.name} writes store {a} in {sorted(set(by))} (load path) but {cls.name}.{unload_name} never deletes from it: after unload + reload the old entry is served (stale nodes/symbols leak into later transpiles)')
 		for a in sorted(set(st) - set(written)):
 			r.note(f'{cls.name}.{a}: store never written outside __init__')
+	# registration is undone when the rest of the load fails: the module is stored BEFORE its dependencies are loaded and the preprocessors run
+	# (that breaks import cycles); if one of these raises and the entry stays, the next load of the path returns the half-loaded module and the
+	# same submission gives a different result the second time
+	ml_load = mods.cls('Modules').method('load')
+	if ml_load is None:
+		raise AnalysisError('Modules.load vanished')
+	pm_ = parent_map(ml_load.node)
+	stores_ = [n for n in walk_no_nested(ml_load.node) if isinstance(n, ast.Assign) and isinstance(n.targets[0], ast.Subscript) and unparse(n.targets[0].value).endswith('__modules')]
+	if not stores_:
+		r.skip('Modules.load:rollback', ml_load.where, 'Modules.load no longer registers the module in self.__modules')
+	for st_ in stores_:
+		later = [c_ for c_ in walk_no_nested(ml_load.node) if isinstance(c_, ast.Call) and isinstance(c_.func, ast.Attribute) and c_.func.attr in ('preprocess', '__load_dependencies') and (c_.lineno, c_.col_offset) > (st_.lineno, st_.col_offset)]
+		if not later:
+			r.ok('Modules.load:rollback', (mods.relpath, st_.lineno), message='nothing that can fail runs after the registration')
+			continue
+		for c_ in later:
+			ok_ = False
+			for t in enclosing_tries(c_, pm_):
+				for h in t.handlers:
+					removes = any(isinstance(x, ast.Call) and isinstance(x.func, ast.Attribute) and x.func.attr in ('unload', 'pop') for x in ast.walk(h)) or any(isinstance(x, ast.Delete) for x in ast.walk(h))
+					reraises = any(isinstance(x, ast.Raise) for x in ast.walk(h))
+					if set(handler_types(h)) & {'Exception', 'BaseException'} and removes and reraises:
+						ok_ = True
+			r.check(ok_, f'Modules.load:rollback:{c_.func.attr}', (mods.relpath, c_.lineno), f'`{unparse(c_)[:70]}` runs after the module was registered in self.__modules and is not inside a try that removes the entry again and re-raises: when it fails (an imported module with an error) the half-loaded module stays registered, the next load returns it without preprocessing, and re-submitting the same source in one session succeeds where the first attempt reported the error', unparse(c_)[:100])
 	# reachability of the owners from Modules.unload
 	mu = mods.cls('Modules').method('unload')
 	calls = [unparse(n.func) for n in walk_no_nested(mu.node) if isinstance(n, ast.Call)]
